@@ -84,7 +84,15 @@ def run(ctx):
                 a, b = ks[0], ks[-1]
                 pairs += [(d, "(%s[parent()])+(%s)" % (a, b)), (d, "((%s)+(%s[parent()]))+(%s)" % (b, a, b)), (d, "(%s)+(%s[parent()])" % (b, a))]
         elif root["k"] == "seq" and len(root["kids"]) >= 2:
-            pairs += [(d, "([0][parent()])+([1])"), (d, "(([1])+([0][parent()]))+([1])")]
+            pairs += [(d, "([0][parent()])+([1])"), (d, "(([1])+([0][parent()]))+([1])"),
+                      # positions named from both ends in one collector: deletions must not depend on how an index was spelled
+                      (d, "([0])+([-1])"), (d, "([-1])+([0])"), (d, "([-2])+([1])+([0])")]
+        # the same for a list held under a key
+        for i, n in enumerate(d):
+            if n["k"] == "seq" and n["par"] == 1 and root["k"] == "map" and len(n["kids"]) >= 2:
+                key = root["keys"][root["kids"].index(i + 1)]
+                if key["t"] == "str" and key["v"].isalnum():
+                    pairs += [(d, "(%s[0])+(%s[-1])" % (key["v"], key["v"])), (d, "(%s[-1])+(%s[0])" % (key["v"], key["v"]))]
     n_coll = len(pairs) - n0
     matched = querycorpus.pmap(_matched, pairs, chunk=500)
     recs = [{"id": i, "doc": d, "ids": ids} for i, (d, dot, ids) in enumerate(matched)]
